@@ -157,12 +157,12 @@ pub trait Print<W: Write> {
 //@@ fn print.print_array = src/output_style.rs :: trait Print :: fn print_array
 //@@ ret r
 //@@ header
-        ensures appended(old(f), final(f), self.t_array(value@), r),
+        ensures appended(old(f), final(f), self.t_array(value@), r), // @tobl text
 //@@ endfn
 //@@ fn print.print_object = src/output_style.rs :: trait Print :: fn print_object
 //@@ ret r
 //@@ header
-        ensures appended(old(f), final(f), self.t_object(value.entries()), r),
+        ensures appended(old(f), final(f), self.t_object(value.entries()), r), // @tobl text
 //@@ endfn
 }
 
